@@ -297,7 +297,7 @@ pub fn run(ctx: &RunCtx) -> i32 {
         println!("VIOLATION property={} replay={}", ctx.id, path);
         return 1;
     }
-    let (stats, failure) = run_sharded(ctx, "sessions", ctx.tier.pick(5000, 40_000), strategy, test);
+    let (stats, failure) = run_sharded(ctx, "sessions", ctx.tier.pick(5000, 200_000), strategy, test);
     write_evidence(ctx, "exploration", RULE, &stats, json!({"regress_replayed": reg.replayed}), &["files <= ~1 MiB", "seeks on append handles are covered by C14 (memory only)"], failure.is_some() as u32);
     finish(ctx, &stats, &failure, &[("distinct_nontrivial", 100), ("overlay_lower_file", 20), ("boundary_or_large_content", 50)])
 }
